@@ -3,12 +3,16 @@
 
   * JSON: `Schema.MarshalJSON` / `UnmarshalJSON` at the level of the Go structs `encoding/json` reads and writes
     (CedarGo/Model/Schema/Json.lean) round-trip every schema the JSON form can represent (`SchemaJsonOk`); hence
-    resolution commutes with the JSON trip.  What `SchemaJsonOk` excludes is what the code loses: an enum with no
-    values comes back as an entity type (`C17_schema_json_roundtrip_counterexample`), memberOfTypes are sorted.
+    resolution commutes with the JSON trip.  What `SchemaJsonOk` excludes: an enum with no values (not a schema: both
+    parsers reject it), unsorted memberOfTypes (the encoder sorts them), and a hand-built AST declaring one name as
+    entity type and enum (`C17_schema_json_roundtrip_counterexample`).
   * Cedar text: the printer (CedarGo/Model/Schema/Text.lean, byte-identical to `MarshalCedar` on the generated
-    corpus) is NOT injective modulo resolution: two schemas that resolve differently print to the same bytes, so no
-    parser can round-trip both (`C17_print_primitive_shadow_counterexample`,
-    `C17_print_entity_ref_counterexample`).
+    corpus) writes a built-in type node (String/Long/Bool/extension) as `__cedar::Name` whenever the current or the empty
+    namespace declares a type of that name; the printed name re-resolves to the same built-in in every resolver state
+    (`C17_print_builtin_reresolves`, `C17_print_builtin_resolves_same` — formerly the counterexample
+    `C17_print_primitive_shadow_counterexample`).  One ambiguity is left, for which the text syntax has no remedy: an
+    explicit entity reference and a reference to a common type of the same name print alike
+    (`C17_print_entity_ref_counterexample`).
   * `quoteCedar` (attribute names, action names, enum values, annotation values) is undone by the lexer's
     `rust.Unquote`: `C17_quoteCedar_unquote`.
   The text LEXER/PARSER is modelled executably only (CedarGo/Model/Schema/Parser.lean, `partial def` loops, tied to the
@@ -23,7 +27,9 @@ open CedarGo.Schema
 /-- FULL STATEMENT (false, see the counterexample): `unmarshalSchema (marshalSchema s) = .ok s` for every schema.
     PROVED PART: for every schema the JSON form can represent — entity parent lists sorted (the encoder sorts
     `memberOfTypes`), no enum without values, no name declared both as entity and enum in one namespace, no
-    annotations on the empty namespace, no namespace called "". -/
+    annotations on the empty namespace, no namespace called "", and every name one the grammar allows where it stands
+    (`NamespaceJsonOk.names`, namespace names are paths: since the repair of `unvalidated-identifier-renders-unparseable`
+    the JSON parser checks names exactly as the text parser does, so this holds for every AST a parser produces). -/
 theorem C17_schema_json_roundtrip_partial (s : Schema) (h : SchemaJsonOk s) : unmarshalSchema (marshalSchema s) = .ok s :=
   unmarshal_marshalSchema s h
 
@@ -47,7 +53,7 @@ def c17Sample : Schema where
   namespaces := [("NS", c17SampleNs)]
 
 example : SchemaJsonOk c17Sample := by
-  refine ⟨⟨?_, ?_, ?_⟩, rfl, ?_⟩
+  refine ⟨⟨?_, ?_, ?_, by decide +kernel⟩, rfl, ?_⟩
   · intro e he
     simp only [c17Sample, List.mem_cons, List.not_mem_nil, or_false] at he
     rcases he with rfl | rfl <;> decide
@@ -56,21 +62,44 @@ example : SchemaJsonOk c17Sample := by
   · intro nd hnd
     simp only [c17Sample, List.mem_cons, List.not_mem_nil, or_false] at hnd
     subst hnd
-    refine ⟨⟨?_, ?_, ?_⟩, by decide⟩
+    refine ⟨⟨?_, ?_, ?_, by decide +kernel⟩, by decide, by decide +kernel⟩
     · intro e he; simp [c17SampleNs] at he
     · intro e he; simp [c17SampleNs] at he; subst he; simp
     · intro e he; simp [c17SampleNs] at he
 
-/-- `entity Color enum [];` (accepted by the text parser): the JSON trip turns the enum into an entity type. -/
+/-- The full statement stays false for hand-built ASTs the JSON form cannot represent: the same name declared as entity
+    type AND as enum in one namespace (`Resolve` rejects it as declared twice) — both go into the one `entityTypes`
+    map and the entity is lost (finding `ast-entity-and-enum-same-name`, programmatic ASTs only). -/
 theorem C17_schema_json_roundtrip_counterexample :
     ∃ s : Schema, unmarshalSchema (marshalSchema s) ≠ .ok s :=
-  ⟨{ bare := { enums := [("Color", {})] } }, by
-    have : unmarshalSchema (marshalSchema { bare := { enums := [("Color", {})] } }) =
-        .ok { bare := { entities := [("Color", {})] } } := by decide +kernel
+  ⟨{ bare := { entities := [("X", {})], enums := [("X", { values := ["a"] })] } }, by
+    have : unmarshalSchema (marshalSchema { bare := { entities := [("X", {})], enums := [("X", { values := ["a"] })] } }) =
+        .ok { bare := { enums := [("X", { values := ["a"] })] } } := by decide +kernel
     rw [this]
     intro h
     injection h with h
     exact absurd h (by decide)⟩
+
+/-- regression (the former witness of the counterexample, `entity Color enum [];`): an enum without values is no longer
+    turned into an ordinary entity type by the JSON trip — `MarshalJSON` writes `"enum":[]` and `UnmarshalJSON` rejects it
+    (as the text parser now rejects `enum []`: the grammar requires at least one value) -/
+example : unmarshalSchema (marshalSchema { bare := { enums := [("Color", {})] } }) =
+    .error "an enum entity type needs at least one value" := by decide +kernel
+example : renderSchemaJson { bare := { enums := [("Color", {})] } } =
+    "{\"\":{\"entityTypes\":{\"Color\":{\"enum\":[]}},\"actions\":{}}}" := by decide +kernel
+
+/-- regression (`unvalidated-identifier-renders-unparseable`, `reserved-common-type-name-renders-unparseable`): the JSON
+    parser rejects `{"": {"entityTypes": {"a b": {}}}}`, a common type named `Record`, a type reference `in`, a namespace
+    `A::in`; it accepts `__cedar::Long` as a reference and keywords as annotation keys -/
+example : unmarshalSchema [("", { entityTypes := [("a b", {})] })] = .error "invalid name" := by decide +kernel
+example : unmarshalSchema [("", { commonTypes := [("Record", { ty := .mk "Long" .none .nil "" })] })] = .error "invalid name" := by
+  decide +kernel
+example : unmarshalSchema [("", { entityTypes := [("X", { tags := some (.mk "Entity" .none .nil "in") })] })] = .error "invalid name" := by
+  decide +kernel
+example : unmarshalSchema [("A::in", {})] = .error "not a valid namespace name" := by decide +kernel
+example : unmarshalSchema [("A::B", { entityTypes := [("X", { anns := [("in", "x")], tags := some (.mk "__cedar::Long" .none .nil "") })] })] =
+    .ok { namespaces := [("A::B", { entities := [("X", { anns := [("in", "x")], tags := some (.typeRef "__cedar::Long") })] })] } := by
+  decide +kernel
 
 /-- Converting to JSON and back commutes with resolution (for every schema the JSON form can represent). -/
 theorem C17_json_commutes_with_resolve_partial (s : Schema) (h : SchemaJsonOk s) :
@@ -86,27 +115,77 @@ def shadowJson : Schema :=
 def shadowText : Schema :=
   { bare := { entities := [("Long", {}), ("X", { shape := some (.cons "a" false [] (.typeRef "Long") .nil) })] } }
 
-/-- The printer writes the primitive type node as the bare name `Long`: `shadowJson` and `shadowText` print to the same
-    bytes, yet the first resolves `a` to the primitive `Long` and the second to the ENTITY type `Long`.
-    So `MarshalCedar` followed by any parser cannot preserve the resolved schema of both. -/
-theorem C17_print_primitive_shadow_counterexample :
-    ∃ s s' : Schema, printSchema s = printSchema s' ∧ resolve s ≠ resolve s' ∧
-      (∃ rs, resolve s = some (.ok rs)) ∧ (∃ rs', resolve s' = some (.ok rs')) := by
-  refine ⟨shadowJson, shadowText, by decide +kernel, by decide +kernel, ?_, ?_⟩
-  · have : (match resolve shadowJson with | some (.ok _) => true | _ => false) = true := by decide +kernel
-    revert this
-    cases resolve shadowJson with
-    | none => simp
-    | some r => cases r with
-      | error _ => simp
-      | ok rs => exact fun _ => ⟨rs, rfl⟩
-  · have : (match resolve shadowText with | some (.ok _) => true | _ => false) = true := by decide +kernel
-    revert this
-    cases resolve shadowText with
-    | none => simp
-    | some r => cases r with
-      | error _ => simp
-      | ok rs => exact fun _ => ⟨rs, rfl⟩
+/-- The repaired printer writes a built-in type node (`builtinRTy t = some rt`: String, Long, Bool, a known extension) as
+    `__cedar::Name` when `sh` — the names declared by the current and the empty namespace, which is what `printSchema`
+    passes — contains its name, and as the bare name otherwise.  Read back as a type reference in namespace `ns` (that
+    is what the text parser makes of a name), the printed name denotes the SAME built-in type, whatever else the schema
+    declares: the only hypothesis is that a name NOT in `sh` is indeed not declared in those two namespaces (`Undeclared`).
+    (Was `C17_print_primitive_shadow_counterexample`: `entity Long; entity X { a: Long }` printed for the primitive.) -/
+theorem C17_print_builtin_reresolves (r : RState) (ns : String) (sh : List String) (indent : Nat) (t : Ty) (rt : RTy)
+    (ht : builtinRTy t = some rt) (hsh : ∀ n, builtinTyName t = some n → n ∉ sh → Undeclared r ns n) :
+    lookupTypeRef r ns (printTy sh indent t) = .builtin rt :=
+  print_builtin_reresolves r ns sh indent t rt ht hsh
+
+/-- …hence the printed name, read back as a type reference, RESOLVES exactly as the node it was printed for. -/
+theorem C17_print_builtin_resolves_same (r : RState) (k : String → Ty → Fuelled RTy) (ns : String) (sh : List String)
+    (indent : Nat) (t : Ty) (rt : RTy) (ht : builtinRTy t = some rt)
+    (hsh : ∀ n, builtinTyName t = some n → n ∉ sh → Undeclared r ns n) :
+    resolveTyWith r k ns (.typeRef (printTy sh indent t)) = resolveTyWith r k ns t := by
+  have h := C17_print_builtin_reresolves r ns sh indent t rt ht hsh
+  have hl : resolveTyWith r k ns (.typeRef (printTy sh indent t)) = some (.ok rt) := by
+    unfold resolveTyWith
+    rw [h]
+  rw [hl]
+  cases t with
+  | string => simp only [builtinRTy, Option.some.injEq] at ht; subst ht; simp [resolveTyWith]
+  | long => simp only [builtinRTy, Option.some.injEq] at ht; subst ht; simp [resolveTyWith]
+  | bool => simp only [builtinRTy, Option.some.injEq] at ht; subst ht; simp [resolveTyWith]
+  | ext n =>
+    simp only [builtinRTy] at ht
+    split at ht
+    · rename_i hn
+      simp only [Option.some.injEq] at ht; subst ht
+      rcases hn with rfl | rfl | rfl | rfl <;> simp [resolveTyWith, lookupBuiltin]
+    · cases ht
+  | set _ => cases ht
+  | record _ => cases ht
+  | entityRef _ => cases ht
+  | typeRef _ => cases ht
+
+/-- the hypotheses are satisfiable with a shadowing declaration present — the resolver state and the name list of
+    `entity Long; entity X { a: <primitive Long> }` (shadowed: printed `__cedar::Long`) and of a namespace `NS` declaring
+    nothing called `String` (not shadowed: printed bare) -/
+example : (match registerAll shadowJson with
+      | .ok r => r.entityTypes == ["Long", "X"] && r.enumTypes.isEmpty && r.commonTypes.isEmpty
+      | .error _ => false) = true ∧ declNames shadowJson.bare = ["Long", "X"] ∧
+    (∀ n, builtinTyName .long = some n → n ∉ ["Long", "X"] → Undeclared { entityTypes := ["Long", "X"] } "" n) ∧
+    lookupTypeRef { entityTypes := ["Long", "X"] } "" (printTy ["Long", "X"] 1 .long) = .builtin .long := by
+  refine ⟨by decide +kernel, by decide +kernel, ?_, by decide +kernel⟩
+  intro n hn hnot
+  simp only [builtinTyName, Option.some.injEq] at hn
+  subst hn
+  exact absurd (by decide) hnot
+example : ∀ n, builtinTyName .string = some n → n ∉ ["A", "Long"] →
+    Undeclared { entityTypes := ["NS::A", "Long"] } "NS" n := by
+  intro n hn _
+  simp only [builtinTyName, Option.some.injEq] at hn
+  subst hn
+  decide +kernel
+
+/-- regression (the old counterexample): the primitive `Long` next to an entity type `Long` is now printed as
+    `__cedar::Long`, so the two schemas that resolve differently no longer print to the same bytes -/
+example : printSchema shadowJson = "entity Long;\n\nentity X {\n\ta: __cedar::Long\n};\n" ∧
+    printSchema shadowText = "entity Long;\n\nentity X {\n\ta: Long\n};\n" ∧ resolve shadowJson ≠ resolve shadowText := by
+  decide +kernel
+
+/-- regression (`unknown-extension-name-accepted`): `{"type": "Extension", "name": "nope"}` no longer resolves (its text
+    rendering `nope` never did: undefined type), nor does an "extension" called like a primitive -/
+example : resolve { bare := { entities := [("X", { shape := some (.cons "a" false [] (.ext "nope") .nil) })] } } =
+    some (.error .unknownExtension) := by decide +kernel
+example : resolve { bare := { entities := [("X", { shape := some (.cons "a" false [] (.typeRef "nope") .nil) })] } } =
+    some (.error .undefinedType) := by decide +kernel
+example : resolve { bare := { entities := [("X", { tags := some (.ext "Long") })] } } = some (.error .unknownExtension) := by
+  decide +kernel
 
 /-- The same loss for `{"type": "Entity", "name": "X"}` when a common type `X` is in scope: printed as `X`, which
     denotes the common type. -/
